@@ -213,7 +213,7 @@ func (c *Controller) addSubscription(sub *Subscription) {
 
 	c.subscriptionLock.Lock()
 	defer c.subscriptionLock.Unlock()
-	verifEvent("sub:locked", sub)
+	verifEvent("sub:locked", sub, sub.q)
 
 	c.subscriptions = append(c.subscriptions, sub)
 }
